@@ -9,6 +9,7 @@ CONSTANTS
  OpMans = {"m1", "m2"}
  OpKinds <- AllKinds
  UseMutex = TRUE
+ FreshPH = TRUE
 SPECIFICATION Spec
 INVARIANTS NoViol Glue Quiescent LayoutGlue WellFormed CacheCoherent GetStable HeadStable
 CHECK_DEADLOCK FALSE
